@@ -931,13 +931,10 @@ func (w *world) check() {
 	}
 	for _, p := range w.peers {
 		ti := w.cm.GetTagInfo(p.id)
+		if msg := w.diffPeer(p, ti); msg != "" {
+			w.fail("%s", msg)
+		}
 		if ti == nil {
-			if len(p.conns) > 0 {
-				w.fail("p%d has %d tracked connections but GetTagInfo returns nil", p.idx, len(p.conns))
-			}
-			if p.anyNonZero() && !w.pruneAllowed(p) {
-				w.fail("p%d: GetTagInfo returns nil but the tag operations delivered so far imply a total of %d (static %v)", p.idx, p.total(), p.static)
-			}
 			if p.temp && p.anyNonZero() {
 				w.labels["buffered-entry-pruned"] = true
 			}
@@ -948,54 +945,69 @@ func (w *world) check() {
 			// not expected from the tag operations; harmless as long as it is empty
 			p.temp, p.tempSince = true, time.Now()
 		}
-		// connections
-		if len(ti.Conns) != len(p.conns) {
-			w.fail("p%d: manager tracks %d connections, notifications imply %d", p.idx, len(ti.Conns), len(p.conns))
+	}
+}
+
+// diffPeer compares what the manager reports for one peer with the model of that peer;
+// "" = they agree. It does not change anything.
+func (w *world) diffPeer(p *peerModel, ti *cmi.TagInfo) string {
+	if ti == nil {
+		if len(p.conns) > 0 {
+			return fmt.Sprintf("p%d has %d tracked connections but GetTagInfo returns nil", p.idx, len(p.conns))
 		}
-		for c := range p.conns {
-			if _, ok := ti.Conns[c.addr.String()]; !ok {
-				w.fail("p%d: connection c%d is not tracked by the manager", p.idx, c.n)
-			}
+		if p.anyNonZero() && !w.pruneAllowed(p) {
+			return fmt.Sprintf("p%d: GetTagInfo returns nil but the tag operations delivered so far imply a total of %d (static %v)", p.idx, p.total(), p.static)
 		}
-		// cached total against the tags the manager itself reports
-		sum := 0
-		for _, v := range ti.Tags {
-			sum += v
-		}
-		if ti.Value != sum {
-			w.fail("p%d: GetTagInfo.Value = %d but its tags %v sum to %d", p.idx, ti.Value, ti.Tags, sum)
-		}
-		// static tags
-		for _, name := range staticTags {
-			if ti.Tags[name] != p.static[name] {
-				w.fail("p%d: tag %s = %d, tag operations imply %d", p.idx, name, ti.Tags[name], p.static[name])
-			}
-		}
-		// decaying tags: exact, including the decay schedule (see dtagModel)
-		live := map[string]*dtagModel{}
-		for _, d := range w.dtags {
-			if !d.closed {
-				live[d.name] = d
-			}
-		}
-		for _, name := range decayNames {
-			got := ti.Tags[name]
-			d := live[name]
-			if d == nil {
-				if got != 0 {
-					w.fail("p%d: decaying tag %s = %d but no such tag is registered", p.idx, name, got)
-				}
-				continue
-			}
-			want := p.decay[d]
-			if got == want {
-				continue
-			}
-			w.fail("p%d: decaying tag %s = %d, but its bumps/removals and its schedule (interval %v, decay kind %d, next due at %v) imply %d",
-				p.idx, name, got, d.interval, d.decayKind, d.nextDue.Sub(w.t0), want)
-		}
-		if ti.Value != p.total() {
-			w.fail("p%d: GetTagInfo.Value = %d, tag operations imply %d (tags %v)", p.idx, ti.Value, p.total(), ti.Tags)
+		return ""
+	}
+	// connections
+	if len(ti.Conns) != len(p.conns) {
+		return fmt.Sprintf("p%d: manager tracks %d connections, notifications imply %d", p.idx, len(ti.Conns), len(p.conns))
+	}
+	for c := range p.conns {
+		if _, ok := ti.Conns[c.addr.String()]; !ok {
+			return fmt.Sprintf("p%d: connection c%d is not tracked by the manager", p.idx, c.n)
 		}
 	}
+	// cached total against the tags the manager itself reports
+	sum := 0
+	for _, v := range ti.Tags {
+		sum += v
+	}
+	if ti.Value != sum {
+		return fmt.Sprintf("p%d: GetTagInfo.Value = %d but its tags %v sum to %d", p.idx, ti.Value, ti.Tags, sum)
+	}
+	// static tags
+	for _, name := range staticTags {
+		if ti.Tags[name] != p.static[name] {
+			return fmt.Sprintf("p%d: tag %s = %d, tag operations imply %d", p.idx, name, ti.Tags[name], p.static[name])
+		}
+	}
+	// decaying tags: exact, including the decay schedule (see dtagModel)
+	live := map[string]*dtagModel{}
+	for _, d := range w.dtags {
+		if !d.closed {
+			live[d.name] = d
+		}
+	}
+	for _, name := range decayNames {
+		got := ti.Tags[name]
+		d := live[name]
+		if d == nil {
+			if got != 0 {
+				return fmt.Sprintf("p%d: decaying tag %s = %d but no such tag is registered", p.idx, name, got)
+			}
+			continue
+		}
+		want := p.decay[d]
+		if got == want {
+			continue
+		}
+		return fmt.Sprintf("p%d: decaying tag %s = %d, but its bumps/removals and its schedule (interval %v, decay kind %d, next due at %v) imply %d",
+			p.idx, name, got, d.interval, d.decayKind, d.nextDue.Sub(w.t0), want)
+	}
+	if ti.Value != p.total() {
+		return fmt.Sprintf("p%d: GetTagInfo.Value = %d, tag operations imply %d (tags %v)", p.idx, ti.Value, p.total(), ti.Tags)
+	}
+	return ""
 }
